@@ -11,6 +11,8 @@ from ..rules import canon as C
 from ..rules import matcher as M
 from ..rules.label import analyse as label_analyse
 from ..rules.memo import id_calls, local_memo_sites
+from ..rules.unionfind import check_merge
+from ..rules.label import _total_key
 
 CN = "synkit/CRN/Topo/canon.py"
 AU = "synkit/CRN/Topo/automorphism.py"
@@ -69,7 +71,8 @@ def refine_cache(rep):
     pm = parent_map(fi.node)
     srt = [l for l in walk_local(fi.node) if isinstance(l, ast.For) and isinstance(l.iter, ast.Call) and call_name(l.iter) == "sorted"
            and "sigs" in norm(l.iter)]
-    rep.ob("O18.2", "R12", fi, len(srt) == 1, srt[0].iter if srt else "for s in sorted(sigs...)", "a split cell is replaced by its sub-cells in signature order (not insertion order)")
+    rep.ob("O18.2", "R12", fi, len(srt) == 1 and _total_key(srt[0].iter), srt[0].iter if srt else "for s in sorted(sigs...)",
+           "a split cell is replaced by its sub-cells in the order of their FULL signatures (a partial key leaves ties in node-insertion order)")
     for lp in [l for l in walk_local(fi.node) if isinstance(l, ast.For) and norm(l.iter) == "part"]:
         skips = [n for n in walk_local(lp) if isinstance(n, (ast.Break,))]
         rep.ob("O18.2", "R12", fi, not skips, lp.iter, "every cell is refined in every round", node=lp)
@@ -233,6 +236,16 @@ def counts(rep):
     cd = local_defs(cn.node)
     rep.ob("O18.5", "SHAPE", cn, norm(origin(cd, ast.Name(id="orbits", ctx=ast.Load()))) == "self._orbits_from_perms(perms)", "orbits = self._orbits_from_perms(perms)",
            "orbits are derived from all minimal-label leaves")
+    mg = rep.f(CN, K + "_orbits_from_perms.<locals>.merge")
+    for ok, msg, facts in check_merge(mg.node):
+        rep.ob("O18.5", "SHAPE", mg, ok, msg, "merging two orbit slots keeps orbit_map exact: the union stays at the surviving slot and every member of the emptied slot is re-pointed to it",
+               facts, node=mg.node)
+    op = rep.f(CN, K + "_orbits_from_perms")
+    calls = [c for c in walk_local(op.node) if isinstance(c, ast.Call) and isinstance(c.func, ast.Name) and c.func.id == "merge"]
+    okm = len(calls) == 1 and [norm(a_) for a_ in calls[0].args] == ["idx", "orbit_map[v]"]
+    lps_ = enclosing_loops(parent_map(op.node), calls[0], op.node) if calls else []
+    okm = okm and len(lps_) == 2 and norm(lps_[0].iter) == "enumerate(p)" and norm(lps_[1].iter) == "perms[1:]"
+    rep.ob("O18.5", "SHAPE", op, okm, calls[0] if calls else "merge(idx, orbit_map[v])", "every position of every further minimal leaf is merged with the orbit of the node found there")
     # automorphism enumeration: full isomorphisms, every mapping counted and used
     sm = rep.f(AU, "CRNAutomorphism.summary")
     pm = parent_map(sm.node)
